@@ -2,7 +2,7 @@ from __future__ import annotations
 
 import asyncio
 from collections.abc import AsyncGenerator, Iterator
-from typing import TYPE_CHECKING
+from typing import TYPE_CHECKING, Any
 
 from pynenc import context
 from pynenc.invocation.base_invocation import BaseInvocation, BaseInvocationGroup
@@ -145,8 +145,18 @@ class ConcurrentInvocationGroup(
         :return: An iterator over the results of each invocation in the group.
         :rtype: Iterator[Result]
         """
+        # Like a distributed group, every member runs even if an earlier one fails;
+        # the first failure is raised when the consumer reaches its position.
+        outcomes: list[tuple[bool, Any]] = []
         for invocation in self.invocations:
-            yield invocation.result
+            try:
+                outcomes.append((True, invocation.result))
+            except Exception as exc:
+                outcomes.append((False, exc))
+        for succeeded, value in outcomes:
+            if not succeeded:
+                raise value
+            yield value
 
     async def async_results(self) -> AsyncGenerator[Result, None]:
         """
